@@ -66,8 +66,16 @@ func c18Validator(kind, k int) func(uint16) bool {
 // c18Build creates the register file through the public API only
 func c18Build(rs []c18Reg) *modbus.Regs {
 	regs := &modbus.Regs{}
+	// the registers are added in the order of the list; where the next one is the next address the first is added
+	// on its own and then once more as part of a range of two (as an application with a 16-bit and a 32-bit value at
+	// one address does): the map is the same list either way
+	for i := 0; i < len(rs); i++ {
+		regs.AddReg(rs[i].Addr, 1)
+		if i+1 < len(rs) && rs[i+1].Addr == rs[i].Addr+1 && (rs[i].Addr+len(rs))%2 == 0 {
+			regs.AddReg(rs[i].Addr, 2)
+		}
+	}
 	for _, r := range rs {
-		regs.AddReg(r.Addr, 1)
 		_ = regs.WriteReg(r.Addr, uint16(r.Val))
 	}
 	for _, r := range rs {
@@ -79,8 +87,22 @@ func c18Build(rs []c18Reg) *modbus.Regs {
 }
 
 func c18Run(c *c18Case) {
-	regs := c18Build(c.Regs)
 	c.Class, c.Changed, c.RFC, c.RData, c.Panic = 0, false, 0, nil, ""
+	var regs *modbus.Regs
+	func() {
+		// a register file that cannot even be set up through the public API counts as a crash of the case
+		defer func() {
+			if r := recover(); r != nil {
+				c.Class = 2
+				c.Panic = "building the register file: " + fmt.Sprint(r)
+			}
+		}()
+		regs = c18Build(c.Regs)
+	}()
+	if c.Class == 2 {
+		c.After, c.RData = []int{}, []byte{}
+		return
+	}
 	func() {
 		defer func() {
 			if r := recover(); r != nil {
@@ -99,13 +121,21 @@ func c18Run(c *c18Case) {
 		c.RData = append([]byte{}, resp.Data...)
 	}()
 	c.After = make([]int, len(c.Regs))
-	for i, r := range c.Regs {
-		v, err := regs.ReadReg(r.Addr)
-		c.After[i] = int(v)
-		if err != nil {
-			c.After[i] = 0xfffff // cannot happen: the register was added
+	func() {
+		defer func() {
+			if r := recover(); r != nil {
+				c.Class = 2
+				c.Panic = "reading the register file back: " + fmt.Sprint(r)
+			}
+		}()
+		for i, r := range c.Regs {
+			v, err := regs.ReadReg(r.Addr)
+			c.After[i] = int(v)
+			if err != nil {
+				c.After[i] = 0xfffff // cannot happen: the register was added
+			}
 		}
-	}
+	}()
 	if c.RData == nil {
 		c.RData = []byte{}
 	}
